@@ -186,11 +186,27 @@ def recvSeq : Ty → List Msg
   | .field t => .obj :: recvSeq t
   | .multifield k => .obj :: (List.replicate k [Msg.obj, Msg.obj]).flatten
 
-/-- number of collective calls of `_bcast` (first the type, then the payload parts) -/
-def bcastLen : Ty → Nat
-  | .plain => 2
-  | .ndarray => 3
-  | .field t => 2 + bcastLen t
-  | .multifield k => 2 + k * 4
+/-- the collective calls of `_bcast`: first the type, then the payload parts (`buf` = `comm.Bcast`) -/
+def bcastSeq : Ty → List Msg
+  | .plain => [.obj, .obj]
+  | .ndarray => [.obj, .obj, .buf]
+  | .field t => .obj :: .obj :: bcastSeq t
+  | .multifield k => .obj :: .obj :: (List.replicate k [Msg.obj, Msg.obj, Msg.obj, Msg.obj]).flatten
+
+/-- the complete sequence of communicator calls of rank `r` in `allreduce_sum(obj, comm)`:
+    `allgather`, `allreduce`, the point-to-point calls of its program (local additions are silent), `_bcast` -/
+inductive Call where
+  | allgather | allreduce
+  | send (peer : Nat) (k : Msg) | recv (peer : Nat) (k : Msg)
+  | bcast (root : Nat) (k : Msg)
+deriving DecidableEq, Repr
+
+def actCalls (ty : Ty) : Act → List Call
+  | .loc _ => []
+  | .recv b _ => (recvSeq ty).map (Call.recv b)
+  | .send a _ => (sendSeq ty).map (Call.send a)
+
+def calls (who : Nat → Nat) (ty : Ty) (n r : Nat) : List Call :=
+  [.allgather, .allreduce] ++ (proj who r (events n)).flatMap (actCalls ty) ++ (bcastSeq ty).map (Call.bcast (who 0))
 
 end NiftyVerif.Allreduce
